@@ -29,7 +29,7 @@ var apiFiles = []treeFile{
 	{Name: "components/c", Src: "[{{ n }}:@slot]"},
 	{Name: "ok", Src: "@use(\"~main\")@insert(\"title\", who.upper() + items[0].str())@insert(\"content\")@each(x in items)({{ x }}{{ loop.last ? \"\" : \",\" }})@end" +
 		"@component(\"~c\", {n: who})@slot{{ who.upper() }}@end@end@end"},
-	{Name: "ok2", Src: "@use(\"~main\")@insert(\"content\")second page of {{ who }}@component(\"~c\", {n: 2})@end@insert(\"title\", \"Second\")"},
+	{Name: "ok2", Src: "@use(\"~main\")@insert(\"content\")second page of {{ who }} {{ \"<i>&amp;&</i>\" }}@component(\"~c\", {n: 2})@end@insert(\"title\", \"Second\")"},
 	{Name: "bare", Src: "@use(\"~main\")a page of the layout that inserts nothing"},
 	{Name: "bad", Src: "PARTIAL-OUTPUT-MARKER {{ who }}\n{{ items[0] / 0 }} after"},
 	{Name: "err", Src: "<custom>error page 50% %v</custom>"},
